@@ -13,4 +13,4 @@ for p in "$@"; do
   echo "== $p rc=$rc"; grep -E "^VIOLATION|^  what|^INCONCLUSIVE|KNOWN-FINDING" "/verif/.work/seedtest-$p-$$.log" | cut -c1-400 | head -8
 done
 git -C /repo worktree remove --force "$WT"
-rm -rf /verif/.work/*-$(python3 -c "import hashlib;print(hashlib.sha1('$WT'.encode()).hexdigest()[:8])") 2>/dev/null
+rm -rf /verif/.work/*-$(python3 -c "import hashlib;print(hashlib.sha1('$WT'.encode()).hexdigest()[:8])")* 2>/dev/null
